@@ -145,35 +145,46 @@ def bind_env(b):
     return {k: q(b[k]) for k in ("eps", "sigma", "rc", "n", "A", "alpha", "r")}
 
 
-def replay_session(chk, lib, terms, sess):
-    """Make the calls of the session in order, keep every returned object (no copy), compare afterwards.
-    Returns True / False (violation reported)."""
+def term_key(model, shift):
+    return f"{model}|{'on' if shift else 'off'}"
+
+
+def run_session(lib, sess, terms):
+    """Make the calls of the session in order, keep every returned object (no copy).  terms: term_key -> Terms record.
+    Returns (expected, value at return or None, value after the session)."""
     calls, held, fresh = sess["calls"], sess["held"], sess["fresh"]
     exps, vs = [], []
     for h in held:
         env = bind_env(h["bind"])
-        t = terms[(h["model"], h["shift"])]
+        t = terms[term_key(h["model"], h["shift"])]
         exps.append([float(ev(t[k], env)) for k in MEMBERS])
         vs.append({k: q(h["bind"][k]) for k in NAMES})
-    base = {"session": sess}
+    if fresh:
+        # one object per call, all results collected by a comprehension
+        results = [call_model(lib, c["model"], v, h["shift"], c["via"])[0] for c, h, v in zip(calls, held, vs)]
+        at_return = None
+    else:
+        objs, results, at_return = {}, [], []
+        for c, h, v in zip(calls, held, vs):
+            if c["ii"] not in objs:
+                objs[c["ii"]] = lib.PairInteractions(v["r"], v["eps"], v["sigma"], v["rc"], h["shift"])
+            res = call_model(lib, c["model"], v, h["shift"], c["via"], pi=objs[c["ii"]])[0]
+            results.append(res)                              # the object itself is held
+            at_return.append([float(x) for x in res])        # its value at the time of return
+    return exps, at_return, [[float(x) for x in res] for res in results]
+
+
+def replay_session(chk, lib, terms, sess):
+    """Returns True / False (violation reported)."""
+    calls = sess["calls"]
+    used = {term_key(h["model"], h["shift"]) for h in sess["held"]}
+    base = {"session": sess, "terms": {k: {m: terms[k][m] for m in MEMBERS} for k in used}}
     try:
-        if fresh:
-            # one object per call, all results collected by a comprehension
-            results = [call_model(lib, c["model"], v, h["shift"], c["via"])[0] for c, h, v in zip(calls, held, vs)]
-            at_return = None
-        else:
-            objs, results, at_return = {}, [], []
-            for c, h, v in zip(calls, held, vs):
-                if c["ii"] not in objs:
-                    objs[c["ii"]] = lib.PairInteractions(v["r"], v["eps"], v["sigma"], v["rc"], h["shift"])
-                res = call_model(lib, c["model"], v, h["shift"], c["via"], pi=objs[c["ii"]])[0]
-                results.append(res)                              # the object itself is held
-                at_return.append([float(x) for x in res])        # its value at the time of return
+        exps, at_return, finals = run_session(lib, sess, terms)
     except Exception as e:
         chk.violation(f"raises:{type(e).__name__}", dict(base, error=str(e)))
         return False
-    for k, (res, exp) in enumerate(zip(results, exps)):
-        now = [float(x) for x in res]
+    for k, (now, exp) in enumerate(zip(finals, exps)):
         info = dict(base, call_index=k + 1, call=calls[k], expected=exp, held_value_after_the_session=now)
         if len(now) != 3:
             chk.violation("triple-shape", info)
@@ -181,7 +192,7 @@ def replay_session(chk, lib, terms, sess):
         for j, name in enumerate(MEMBERS):
             if not close(now[j], exp[j]):
                 if at_return is not None and not close(at_return[k][j], exp[j]):
-                    # wrong already when it was returned: the point grid reports that; here only if a history is needed
+                    # wrong already when it was returned although the point grid passed: an effect of the earlier calls
                     chk.violation(f"session:{name}:{calls[k]['model']}:wrong-at-return-after-earlier-calls",
                                   dict(info, value_at_return=at_return[k], member=name))
                 else:
@@ -209,7 +220,15 @@ def run(tier, replay=None):
     if replay:
         case = common.load_replay(replay)["case"]
         if "session" in case:
-            print(json.dumps({k: v for k, v in case.items() if k != "terms"}, indent=1))
+            sess = case["session"]
+            try:
+                exps, at_return, finals = run_session(lib, sess, case["terms"])
+                rows = [{"call": dict(c, **h["bind"], shift=h["shift"]), "expected[s1,s1c,s2]": e,
+                         "at_return": None if at_return is None else at_return[k], "held_after_the_session": f}
+                        for k, (c, h, e, f) in enumerate(zip(sess["calls"], sess["held"], exps, finals))]
+            except Exception as e:
+                rows = f"raises {type(e).__name__}: {e}"
+            print(json.dumps({"fresh_object_per_call": sess["fresh"], "calls": rows}, indent=1))
             return 0
         env = env_of(case["par"], case["r"])
         exp = [float(ev(case["terms"][k], env)) for k in MEMBERS]
@@ -262,10 +281,11 @@ def run(tier, replay=None):
     sessions = [c for c in rs.cases if c.get("m") == "Session"]
     if not sessions or not any(s["fresh"] for s in sessions) or all(s["fresh"] for s in sessions):
         raise common.MachineryError(f"MC_PairPotSession emitted {len(sessions)} sessions")
+    tkeyed = {term_key(m, sh): t for (m, sh), t in terms.items()}
     nheld = 0
     nbad = 0
     for sess in sessions:
-        if replay_session(chk, lib, terms, sess):
+        if replay_session(chk, lib, tkeyed, sess):
             chk.ok(("S", sess["fresh"], json.dumps(sess["idx"])))
             nheld += len(sess["calls"])
         else:
